@@ -30,6 +30,9 @@ pub struct CasScenario {
     pub programs: Vec<Vec<Instr>>,
     /// optional import executed first (boundary versions)
     pub setup_import: Option<String>,
+    /// an actor that writes with the server's own client id (statistics task, embedded client):
+    /// through the request path it is a writer like any other
+    pub server_actor: Option<usize>,
 }
 
 #[derive(Clone, Debug, Default, PartialEq)]
@@ -98,7 +101,7 @@ impl Scenario for CasScenario {
                     panic!("MACHINERY: finished actor scheduled in prefix");
                 };
                 locals[a].pc += 1;
-                let c = a as C;
+                let c = if self.server_actor == Some(a) { INTERNAL } else { a as C };
                 match instr {
                     Instr::CGet(k) => {
                         let got = core.wb.cget(&k.to_string());
@@ -138,7 +141,12 @@ impl Scenario for CasScenario {
                         } else {
                             json!(lastv.and_then(|v| v.as_i64()).unwrap_or(0) + 1 + 1000 * (a as i64 + 1))
                         };
-                        let res = core.wb.cset(k.to_string(), newv.clone(), carried, cid(c), false).await;
+                        // (through the request path every transport uses)
+                        let res = {
+                            let (tx, rx) = tokio::sync::oneshot::channel();
+                            worterbuch::verif::process_api_call(&mut core.wb, worterbuch::verif::WbFunction::CSet(k.to_string(), newv.clone(), carried, cid(c), tx)).await;
+                            rx.await.expect("MACHINERY: cset answer")
+                        };
                         let km = model.entry(k).or_default();
                         let cur = km.version();
                         // "succeeds iff the carried version equals the current one (0 for absent or
@@ -164,7 +172,11 @@ impl Scenario for CasScenario {
                     }
                     Instr::Set(k) => {
                         let v = json!(-(a as i64) - 1);
-                        let res = core.wb.set(k.to_string(), v.clone(), cid(c), false).await;
+                        let res = {
+                            let (tx, rx) = tokio::sync::oneshot::channel();
+                            worterbuch::verif::process_api_call(&mut core.wb, worterbuch::verif::WbFunction::Set(k.to_string(), v.clone(), cid(c), tx, tracing::Span::none())).await;
+                            rx.await.expect("MACHINERY: set answer")
+                        };
                         let km = model.entry(k).or_default();
                         let is_cas = matches!(km.cur, Some((_, Some(_))));
                         match (&res, is_cas) {
@@ -263,11 +275,11 @@ pub fn scenarios(tier: &str) -> Vec<(String, CasScenario)> {
     ];
     v.push((
         "2x2+set+delete".to_owned(),
-        CasScenario { programs: vec![cycles("x", 2), cycles("x", 2), plain_writer.clone(), deleter.clone()], setup_import: None },
+        CasScenario { programs: vec![cycles("x", 2), cycles("x", 2), plain_writer.clone(), deleter.clone()], setup_import: None, server_actor: None },
     ));
     v.push((
         "3x1+rogue".to_owned(),
-        CasScenario { programs: vec![cycles("x", 1), cycles("x", 1), cycles("x", 1), rogue.clone()], setup_import: None },
+        CasScenario { programs: vec![cycles("x", 1), cycles("x", 1), cycles("x", 1), rogue.clone()], setup_import: None, server_actor: None },
     ));
     v.push((
         "two-keys".to_owned(),
@@ -278,6 +290,7 @@ pub fn scenarios(tier: &str) -> Vec<(String, CasScenario)> {
                 vec![Instr::Delete("y")],
             ],
             setup_import: None,
+            server_actor: None,
         },
     ));
     // value-preserving csets still consume the version
@@ -290,6 +303,7 @@ pub fn scenarios(tier: &str) -> Vec<(String, CasScenario)> {
                 vec![Instr::Set("x")],
             ],
             setup_import: None,
+            server_actor: None,
         },
     ));
     // keys inside each other: refused and accepted compare-and-sets below and above a CAS key (a
@@ -303,18 +317,25 @@ pub fn scenarios(tier: &str) -> Vec<(String, CasScenario)> {
                 vec![Instr::CSetAbs("x/y/z", 5), Instr::CGet("x"), Instr::CSetFromLast("x")],
             ],
             setup_import: None,
+            server_actor: None,
         },
+    ));
+    // the server's own client writes plainly in between: refused like any plain set on a CAS value
+    v.push((
+        "server-writer".to_owned(),
+        CasScenario { programs: vec![cycles("x", 2), cycles("x", 1), vec![Instr::Set("x"), Instr::Set("x")]], setup_import: None, server_actor: Some(2) },
     ));
     // the key disappears through a pattern delete between compare-and-set cycles
     v.push((
         "pdelete".to_owned(),
-        CasScenario { programs: vec![cycles("x", 2), cycles("x", 1), vec![Instr::PDelete("x"), Instr::PDelete("x")]], setup_import: None },
+        CasScenario { programs: vec![cycles("x", 2), cycles("x", 1), vec![Instr::PDelete("x"), Instr::PDelete("x")]], setup_import: None, server_actor: None },
     ));
     v.push((
         "u64-boundary".to_owned(),
         CasScenario {
             programs: vec![cycles("x", 2), cycles("x", 1), vec![Instr::CSetAbs("x", u64::MAX), Instr::CSetAbs("x", u64::MAX - 1)]],
             setup_import: Some(format!(r#"{{"data":{{"t":{{"x":{{"v":{{"Cas":[0,{}]}}}}}}}}}}"#, u64::MAX - 1)),
+            server_actor: None,
         },
     ));
     if tier == "thorough" {
@@ -323,11 +344,12 @@ pub fn scenarios(tier: &str) -> Vec<(String, CasScenario)> {
             CasScenario {
                 programs: vec![cycles("x", 2), cycles("x", 2), cycles("x", 2), plain_writer, deleter],
                 setup_import: None,
+                server_actor: None,
             },
         ));
         v.push((
             "2x3+rogue".to_owned(),
-            CasScenario { programs: vec![cycles("x", 3), cycles("x", 3), rogue], setup_import: None },
+            CasScenario { programs: vec![cycles("x", 3), cycles("x", 3), rogue], setup_import: None, server_actor: None },
         ));
     }
     v
